@@ -82,6 +82,41 @@ def showSer (p : String × Ser Tok) : String :=
 def showGrid (g : List (List String)) : String :=
   ";".intercalate (g.map (fun r => ",".intercalate (r.map encStr)))
 
+def ints? (s : String) : Option (List Int) :=
+  if s = "" then some [] else (s.splitOn ",").mapM (fun (w : String) => w.toInt?)
+
+/-- `*` | `span:F=s,s,…` | `fs:F=*;F=s,s;…` -/
+def fspan? (w : String) : Option (R FSpan) :=
+  if w = "*" then some (pure defaultFSpan)
+  else
+    let entry (e : String) : Option (BFreq × Option (List Int)) :=
+      match e.splitOn "=" with
+      | [f, ps] => do
+        let f ← freq? f
+        if ps = "*" then pure (f, none) else do let l ← ints? ps; pure (f, some l)
+      | _ => none
+    if (w.take 5).toString = "span:" then
+      (entry (w.drop 5).toString).bind (fun e => match e.2 with
+        | some ps => some (spanArg e.1 ps)
+        | none => none)
+    else if (w.take 3).toString = "fs:" then
+      (if (w.drop 3).toString = "" then some [] else ((w.drop 3).toString.splitOn ";").mapM entry).map pure
+    else none
+
+def runCsvWith (descRow : Bool) (fs : R FSpan) (names : Option (List String)) (db0 : Box (Ser Tok) Tok) : String :=
+  let dbR : R (Box (Ser Tok) Tok) := match names with
+    | none => pure db0
+    | some l => shallow db0 (.names l) .same false
+  match dbR, fs with
+  | .error e, _ => showErr e
+  | _, .error e => showErr e
+  | .ok db, .ok fs =>
+    let g := exportGridWith sdmxCodec descRow fs db
+    let imp := match importGrid sdmxCodec descRow g with
+      | .ok l => if l.isEmpty then "-" else ";".intercalate (l.map showSer)
+      | .error e => showErr e
+    (if g.isEmpty then "-" else showGrid g) ++ " # " ++ imp
+
 def runCsv (descRow : Bool) (db : Box (Ser Tok) Tok) : String :=
   let g := exportGrid sdmxCodec descRow db
   let imp := match importGrid sdmxCodec descRow g with
@@ -110,6 +145,59 @@ def runSlate (ws : List String) : String :=
           | .error e => showErr e
           | .ok l => if l.isEmpty then "-" else ";".intercalate (l.map showSer)
         (if vs = "" then "-" else vs) ++ " # " ++ back
+  | _ => "bad-op"
+
+/-- one period operation on a dataslate: `rs:n` `re:n` `ae:n` `ri` `rt` -/
+def slateOp (sl : Slate Tok) (w : String) : Option (R (Slate Tok)) :=
+  match w.splitOn ":" with
+  | ["rs", n] => n.toNat?.map (fun n => pure (sl.removeFromStart n))
+  | ["re", n] => n.toNat?.map (fun n => pure (sl.removeFromEnd n))
+  | ["ae", n] => n.toNat?.map (fun n => pure (sl.addToEnd n))
+  | ["ri"] => some sl.removeInitial
+  | ["rt"] => some sl.removeTerminal
+  | _ => none
+
+def showState (sl : Slate Tok) : String :=
+  toString sl.start ++ "," ++ toString sl.len ++ "," ++ toString sl.baseCols ++ "," ++ toString sl.basePeriods
+
+def runSlateOps (sl : Slate Tok) (ops : List String) (acc : List String) : Option (Except String (Slate Tok × List String)) :=
+  match ops with
+  | [] => some (.ok (sl, acc.reverse))
+  | w :: rest =>
+    match slateOp sl w with
+    | none => none
+    | some (.error e) => some (.error (showErr e))
+    | some (.ok sl') => runSlateOps sl' rest (showState sl' :: acc)
+
+def showItems (r : R (List (String × Ser Tok))) : String :=
+  match r with
+  | .error e => showErr e
+  | .ok l => if l.isEmpty then "-" else ";".intercalate (l.map showSer)
+
+def runSlateSeq (ws : List String) : String :=
+  match ws with
+  | [f, start, len, nvar, clip, base, names, db, fb, ow, trim, mn, mx, ops] =>
+    let parsed := do
+      let f ← freq? f; let start ← start.toInt?; let len ← len.toNat?; let nvar ← nvar.toNat?
+      let clip ← bool? clip; let trim ← bool? trim; let mn ← mn.toInt?; let mx ← mx.toInt?
+      let base ← (if base = "-" then some [] else (base.splitOn ",").mapM (fun (w : String) => w.toNat?))
+      let names ← (if names = "*" then some none else (decStrs (names.drop 1).toString).map some)
+      let db ← box? db; let fb ← box? fb; let ow ← box? ow
+      pure (f, start, len, nvar, clip, trim, base, names, db, fb, ow, mn, mx)
+    match parsed with
+    | none => "bad-op"
+    | some (f, start, len, nvar, clip, trim, base, names, db, fb, ow, mn, mx) =>
+      match fromDatabox db names f start len nvar fb ow clip base with
+      | .error e => showErr e
+      | .ok sl0 =>
+        let sl0 := { sl0 with minShift := mn, maxShift := mx }
+        match runSlateOps sl0 (if ops = "-" then [] else ops.splitOn ",") [showState sl0] with
+        | none => "bad-op"
+        | some (.error e) => e
+        | some (.ok (sl, states)) =>
+          let vs := ";".intercalate (sl.variants.map showRows)
+          ";".intercalate states ++ " # " ++ (if vs = "" then "-" else vs) ++ " # " ++ showItems (toDatabox sl trim)
+            ++ " # " ++ showItems (toDataboxBase sl trim)
   | _ => "bad-op"
 
 /-! ### op: series as symbolic terms -/
@@ -236,7 +324,12 @@ def step (line : String) : String :=
     (match bool? d, items.mapM item? with
       | some d, some db => runCsv d db
       | _, _ => "bad-op")
+  | "csvx" :: d :: fs :: ns :: items =>
+    (match bool? d, fspan? fs, (if ns = "*" then some none else (decStrs (ns.drop 2).toString).map some), items.mapM item? with
+      | some d, some fs, some ns, some db => runCsvWith d fs ns db
+      | _, _, _, _ => "bad-op")
   | "slate" :: rest => runSlate rest
+  | "slateops" :: rest => runSlateSeq rest
   | ["ext", bs, bl, lag, lead, pre, app] =>
     (match bs.toInt?, bl.toNat?, lag.toInt?, lead.toInt?, bool? pre, bool? app with
       | some bs, some bl, some lag, some lead, some pre, some app =>
